@@ -28,6 +28,11 @@ STYLES = ("rest", "google", "numpydoc")
 # --------------------------------------------------------------------------------------------------------------
 # generator: the docstring-representable domain D01
 # --------------------------------------------------------------------------------------------------------------
+PUNCT_DOCS = ["the key: value pairs kept as they are", "first, second and third axis", "width; height comes next", "rows - columns are inferred",
+              "scale (in pixels) of the image", "the 'quoted' label text", "ratio a/b of the sides", "see http://host/x for details", "weights, biases, and so on",
+              "step size, i.e. the increment", "one of: fast, slow", "name -> index mapping", "x = y + z at most"]
+
+
 def gen_case(r):
     ir = G.gen_ir(r, nparams=r.randint(0, 5), with_doc=True)
     # more default shapes: negative numbers, code-quoted expressions, strings that look like numbers
@@ -44,6 +49,10 @@ def gen_case(r):
             elif k < 0.32:
                 p["typ"] = r.choice(["Callable", "np.ndarray", "Optional[int]"])
                 p["default"] = "```%s```" % r.choice(["np.zeros(3)", "lambda x: x", "(1, 2)"])
+    # descriptions with the punctuation the scanners split on (colon, comma, semicolon, dash, parentheses, quotes, slash)
+    for n, p in list(ir["params"].items()) + (list(ir["returns"].items()) if ir.get("returns") else []):
+        if r.random() < 0.15 and "doc" in p:
+            p["doc"] = r.choice(PUNCT_DOCS)
     # parameters / return entries without a description (type only)
     for n, p in list(ir["params"].items()) + (list(ir["returns"].items()) if ir.get("returns") else []):
         if r.random() < 0.12 and p.get("typ"):
